@@ -97,6 +97,7 @@ def main():
               {c: (r["violation_line"] or "exit %d" % r["rc"]) for c, r in results.items()})
     rc, o = sh("git status --porcelain", cwd="/repo")
     assert o.strip() == "", "/repo left dirty: " + o
+    sh("/venv/bin/python harness/regen_all.py", cwd=V)      # Gen/*.lean back to what the unchanged sources say
 
 
 if __name__ == "__main__":
